@@ -6,7 +6,7 @@ import time
 
 VERIF = os.path.dirname(os.path.dirname(os.path.abspath(__file__)))
 REPLAY = os.path.join(VERIF, 'replay')
-HAVE = {'C01', 'C04', 'C05', 'C08', 'C15'}
+HAVE = {'C01', 'C03', 'C04', 'C05', 'C08', 'C10', 'C14', 'C15', 'C19'}
 _cache = {}
 
 
@@ -50,6 +50,19 @@ def search(pid, seed, tier='quick'):
 
 
 BOUNDED = {
+    'C03': dict(what='engine scenarios on the REAL Engine (3 exchanges, 6 instruments; execution links healthy / closed / missing incl. a missing link at a lower '
+                     'exchange index and tx maps built by the real ExecutionBuilder; scripted strategy; risk manager refusing a chosen cid set): requests reported '
+                     'sent are delivered exactly once to the named exchange and marked in flight; failed ones carry a (fatal where due) error, no mark, nothing '
+                     'delivered; refused ones never delivered; no strategy requests while disabled, commands still actioned, generation resumes on the re-enabling event',
+                bound={'quick': 'crafted programmes over 27 link configurations + ~10k seeded random histories', 'thorough': '~200k seeded random histories'}),
+    'C10': dict(what='event histories through the REAL sync_run_with_audit + StateReplicaManager (incl. fatal-error records from a closed link): one record per event, '
+                     'consecutive sequence numbers, terminal final record; replica state equals engine state (orders modulo in-flight markers) after every prefix; '
+                     'a removed record is rejected, a duplicated one skipped',
+                bound={'quick': '414 crafted + ~5k seeded random histories', 'thorough': '~60k histories'}),
+    'C19': dict(what='engine states on the REAL engine (3 exchanges; per instrument mixes of OpenInFlight / Open / CancelInFlight orders, long / short / no position, '
+                     'price known / unknown) x every InstrumentFilter incl. non-adjacent exchange subsets x CancelOrders / ClosePositions, also issued twice: '
+                     'requested set equals the reference set; instruments outside the filter untouched',
+                bound={'quick': '~6k seeded states x filters', 'thorough': '~60k'}),
     'C04': dict(what='constructors IndexedInstruments::new + generate_execution_instrument_map (iterator pipelines) checked on the REAL code: '
                      'every tuple of distinct spot-instrument definitions over 3 exchanges x 4 pairs with shared asset names, every definition order; '
                      'for every exchange map and every global index/name: only own indices translate, to the own exchange name, round trips are identity, '
@@ -69,8 +82,54 @@ def undecided_standin(pid, tier, seed):
     return res
 
 
+KANI = {'C06': ['spot_validate_sequence_follows_venue_rule', 'futures_validate_sequence_follows_venue_rule']}
+
+
+def kani_second_backend(pid, evidence):
+    """thorough tier: Kani / CBMC on the real crate (loop-free harness over fully symbolic u64 inputs: a complete proof, and the
+    source of concrete counter-examples). Each harness is one more obligation, back end kani+cbmc."""
+    viol = []
+    d = os.path.join(VERIF, 'kani')
+    if os.environ.get('VERIF_REPO', '/repo') != '/repo':
+        return viol
+    try:
+        open(os.path.join(d, 'Cargo.lock'), 'w').write(open('/repo/Cargo.lock').read())
+    except OSError:
+        pass
+    for h in KANI[pid]:
+        t0 = time.time()
+        env = dict(os.environ, CARGO_NET_OFFLINE='true')
+        p = subprocess.run(['timeout', '2400', 'cargo', 'kani', '--harness', h], cwd=d, env=env, stdout=subprocess.PIPE, stderr=subprocess.STDOUT, text=True)
+        out = p.stdout
+        ok = 'VERIFICATION:- SUCCESSFUL' in out
+        failed = 'VERIFICATION:- FAILED' in out
+        label = '%s.kani.%s' % (pid, h)
+        rec = dict(label=label, kind='kani harness on the real crate (all u64 symbolic, loop-free: complete)', discharged=ok, backend='kani 0.68 + cbmc', wall_s=round(time.time() - t0, 1))
+        if evidence is not None:
+            c = evidence['coverage']
+            c['obligations'] += 1
+            c['discharged'] += 1 if ok else 0
+            c['obligations_table'].append(rec)
+        if failed:
+            q = subprocess.run(['timeout', '2400', 'cargo', 'kani', '--harness', h, '-Z', 'concrete-playback', '--concrete-playback=print'], cwd=d, env=env,
+                               stdout=subprocess.PIPE, stderr=subprocess.STDOUT, text=True)
+            cex = '\n'.join(l for l in q.stdout.split('\n') if 'Failed Checks' in l or 'concrete' in l.lower() or l.strip().startswith('//') or 'vec![' in l)[-4000:]
+            viol.append(dict(obligation=label, kind='kani counter-example on the real crate', text='', verifier_output=out[-3000:],
+                             input='kani concrete playback (values of the kani::any() calls in order):\n' + cex, observed='assertion of the harness failed'))
+        elif not ok:
+            raise_undecided('kani did not finish for %s: %s' % (h, out[-600:]))
+    return viol
+
+
+def raise_undecided(msg):
+    from .extract import Undecided
+    raise Undecided(msg)
+
+
 def post_checks(pid, tier, seed, evidence):
-    """bounded stand-ins on the real code (labelled bounded, never counted in obligations/discharged)"""
+    """bounded stand-ins on the real code (labelled bounded, never counted in obligations/discharged); second back end in the thorough tier"""
+    if pid in KANI and tier == 'thorough' and evidence is not None:
+        return kani_second_backend(pid, evidence)
     if pid not in BOUNDED:
         return []
     binary = build_replay()
